@@ -19,7 +19,7 @@ from .engine import Engine, Unsupported, Ref, Obj, ObjT, PyConst, State, Obligat
 from .contract import Contract, Lemma
 
 Z3_TIMEOUT_MS = int(os.environ.get("VERIF_Z3_TIMEOUT_MS", "8000"))
-CLI_TIMEOUT_S = int(os.environ.get("VERIF_CLI_TIMEOUT_S", "20"))
+CLI_TIMEOUT_S = int(os.environ.get("VERIF_CLI_TIMEOUT_S", "12"))
 
 
 # ------------------------------------------------------------ engine extras
@@ -228,6 +228,45 @@ def _bisect_left(engine, st, args, node, kwargs):
     return V(Int, [r])
 
 
+@external("builtin_max")
+def _builtin_max(engine, st, args, node, kwargs):
+    """max(<dict or set>): the greatest key; raises ValueError iff empty
+    (assumed contract of the builtin)."""
+    from .engine import NeedSplit, RaiseSignal
+
+    c = engine.deref(st, args[0])
+    if not (isinstance(c, V) and isinstance(c.t, (Ty.Map, Ty.Set))):
+        raise Unsupported("max() of this container")
+    dom = c.c[0]
+    empty = dom == z3.K(Ty.IntS, z3.BoolVal(False))
+    d = st.decided(empty)
+    if d is None:
+        raise NeedSplit(empty)
+    if d:
+        raise RaiseSignal("ValueError")
+    r = engine.fresh(st, "max", node, Ty.IntS)
+    k = z3.Int("mx!k")
+    st.assume(dom[r])
+    st.assume(z3.ForAll([k], z3.Implies(dom[k], k <= r)))
+    return V(Int, [r])
+
+
+@external("object.__new__")
+def _object_new(engine, st, args, node, kwargs):
+    """object.__new__(cls): a fresh object with no attribute set yet."""
+    cls = args[0]
+    if not isinstance(cls, PyConst) or not isinstance(cls.val, type):
+        raise Unsupported("object.__new__ of a computed class")
+    name = cls.val.__name__
+    t = engine.contract.self_type
+    if t is None or t.cls != name:
+        t = ObjT(name, {})
+    ob = Obj(name, {})
+    i = engine.new_id()
+    st.heap[i] = ob
+    return Ref(i, t)
+
+
 GLOBAL_EXTERNALS["bisect.bisect_left"] = _bisect_left
 GLOBAL_EXTERNALS["bisect.bisect_left".split(".")[-1]] = _bisect_left
 
@@ -282,10 +321,14 @@ def solver_for(engine, pc):
     return s
 
 
-def discharge(engine, ob, want_model=True):
+def discharge(engine, ob, want_model=True, quick_ms=None):
     """Returns (status, backend, seconds, detail)."""
     t0 = time.time()
+    if getattr(ob, "trivial", False):
+        return "discharged", "syntactic", 0.0, None
     s = solver_for(engine, ob.pc)
+    if quick_ms:
+        s.set("timeout", quick_ms)
     s.add(z3.Not(ob.goal))
     r = s.check()
     dt = time.time() - t0
@@ -301,6 +344,8 @@ def discharge(engine, ob, want_model=True):
         # a model of a quantified query may be spurious only if z3 says unknown;
         # 'sat' is definitive
         return "refuted", "z3", dt, detail
+    if quick_ms or not getattr(engine, "use_cli", True):
+        return "unknown", "z3", dt, str(s.reason_unknown())
     # unknown: second opinions on the SMT-LIB dump
     smt = s.to_smt2()
     for backend, cmd in (
@@ -344,10 +389,11 @@ def model_summary(m, limit=40):
     return out
 
 
-def verify_function(contract, registry, quick=True):
+def verify_function(contract, registry, quick=True, cli=True):
     res = FnResult(contract)
     t0 = time.time()
     eng = Engine(contract, registry)
+    eng.use_cli = cli
     try:
         fn = eng.load_source()
     except (AttributeError, KeyError, ImportError, OSError, TypeError) as e:
@@ -404,7 +450,7 @@ def _run(eng, contract, fn, res):
         st.assume(eng.eval_spec(st, pre))
     # vacuity: precondition satisfiable
     s = solver_for(eng, st.pc)
-    s.set("timeout", 4000)
+    s.set("timeout", 1500)
     r = s.check()
     res.pre_sat = str(r)
     if r == z3.unsat:
@@ -422,10 +468,10 @@ def _run(eng, contract, fn, res):
             oc = ("return", Ty.mk_none())
         if isinstance(oc, tuple) and oc[0] == "return":
             val = oc[1]
+            canary_state = canary_state or s2.clone()
             for j, post in enumerate(contract.ensures):
                 g = eng.eval_spec(s2, post, {"result": val})
                 eng.oblige(s2, g, f"postcondition {j}: {post}", "post", None)
-            canary_state = canary_state or s2
         elif isinstance(oc, tuple) and oc[0] == "raise":
             exc = oc[1]
             if exc in contract.raises:
@@ -448,25 +494,66 @@ def _run(eng, contract, fn, res):
     # canary: 'False' after a returning path must NOT be provable
     if contract.canary and canary_state is not None:
         cob = Obligation("canary", "canary", list(canary_state.pc), z3.BoolVal(False))
-        status, backend, dt, _ = discharge(eng, cob, want_model=False)
+        status, backend, dt, _ = discharge(eng, cob, want_model=False, quick_ms=1500)
         res.canary = status != "discharged"
     res.fired_calls = getattr(eng, "fired_calls", [])
+
+
+def _has_quantifier(e):
+    seen = set()
+    stack = [e]
+    while stack:
+        x = stack.pop()
+        if x.get_id() in seen:
+            continue
+        seen.add(x.get_id())
+        if z3.is_quantifier(x):
+            return True
+        stack.extend(x.children())
+    return False
+
+
+def discharge_qf(hyps, goal, timeout_ms=None):
+    t0 = time.time()
+    s = z3.Solver()
+    s.set("timeout", timeout_ms or Z3_TIMEOUT_MS)
+    for h in hyps:
+        s.add(h)
+    s.add(z3.Not(goal))
+    r = s.check()
+    dt = time.time() - t0
+    if r == z3.unsat:
+        return "discharged", "z3", dt, None
+    if r == z3.sat:
+        return "refuted", "z3", dt, model_summary(s.model())
+    smt = s.to_smt2()
+    for backend, cmd in (
+        ("cvc5", ["/usr/bin/cvc5", "--lang=smt2", f"--tlimit={CLI_TIMEOUT_S * 1000}", "--nl-ext-tplanes"]),
+        ("z3-4.8", ["/usr/bin/z3", "-smt2", f"-T:{CLI_TIMEOUT_S}"]),
+    ):
+        rr = run_cli(cmd, smt)
+        if rr == "unsat":
+            return "discharged", backend, time.time() - t0, None
+    return "unknown", "z3", time.time() - t0, str(s.reason_unknown())
 
 
 def _prove_lemma(eng, st, lem, res):
     """Induction VCs for `forall var in [lo,hi]: claim`."""
     zc = z3.Int(f"ind!{lem.name}!{lem.var}")
 
-    def claim_at(term):
+    def expr_at(src, term):
         old = dict(eng.bound)
         eng.bound[lem.var] = V(Int, [term])
         om = eng.spec_mode
         eng.spec_mode = True
         try:
-            return eng.truth(st, eng.eval(st, eng.parse_expr(lem.claim)))
+            return eng.truth(st, eng.eval(st, eng.parse_expr(src)))
         finally:
             eng.bound = old
             eng.spec_mode = om
+
+    def claim_at(term):
+        return expr_at(lem.claim, term)
 
     om = eng.spec_mode
     eng.spec_mode = True
@@ -475,21 +562,36 @@ def _prove_lemma(eng, st, lem, res):
         hi = eng.num(eng.eval(st, eng.parse_expr(lem.hi)))
     finally:
         eng.spec_mode = om
-    vcs = []
+    vcs = []  # (label, hyps, goal)
     if lem.induction == "up":
-        vcs.append((f"lemma {lem.name} base", z3.Implies(lo <= hi, claim_at(lo))))
-        vcs.append((f"lemma {lem.name} step", z3.Implies(z3.And(lo <= zc, zc < hi, claim_at(zc)), claim_at(zc + 1))))
+        vcs.append((f"lemma {lem.name} base", [lo <= hi], claim_at(lo), lo))
+        vcs.append((f"lemma {lem.name} step", [lo <= zc, zc < hi, claim_at(zc)], claim_at(zc + 1), zc))
     elif lem.induction == "down":
-        vcs.append((f"lemma {lem.name} base", z3.Implies(lo <= hi, claim_at(hi))))
-        vcs.append((f"lemma {lem.name} step", z3.Implies(z3.And(lo <= zc, zc < hi, claim_at(zc + 1)), claim_at(zc))))
+        vcs.append((f"lemma {lem.name} base", [lo <= hi], claim_at(hi), hi))
+        vcs.append((f"lemma {lem.name} step", [lo <= zc, zc < hi, claim_at(zc + 1)], claim_at(zc), zc))
     else:
-        vcs.append((f"lemma {lem.name}", z3.Implies(z3.And(lo <= zc, zc <= hi), claim_at(zc))))
+        vcs.append((f"lemma {lem.name}", [lo <= zc, zc <= hi], claim_at(zc), zc))
     ok = True
-    for label, goal in vcs:
-        ob = Obligation(label, "lemma", list(st.pc), goal)
-        status, backend, dt, detail = discharge(eng, ob)
+
+    def record(label, r):
+        nonlocal ok
+        status, backend, dt, detail = r
         res.obligations.append({"label": label, "kind": "lemma", "status": status, "backend": backend, "time_s": dt, "detail": detail, "line": None})
         ok = ok and status == "discharged"
+
+    for label, hyps, goal, at in vcs:
+        if lem.via:
+            hints = []
+            for j, hsrc in enumerate(lem.via):
+                h = expr_at(hsrc, at)
+                ob = Obligation(f"{label} hint {j}: {hsrc}", "lemma", list(st.pc) + hyps, h)
+                record(ob.label, discharge(eng, ob))
+                hints.append(h)
+            qf_pc = [p for p in st.pc if not _has_quantifier(p)]
+            record(label + " (quantifier-free from hints)", discharge_qf(qf_pc + hyps + hints, goal))
+        else:
+            ob = Obligation(label, "lemma", list(st.pc) + hyps, goal)
+            record(label, discharge(eng, ob))
     if ok:
         st.assume(eng.lemma_formula(st, lem))
         eng.contract.proved_lemmas.append(lem)
